@@ -275,6 +275,20 @@ def _parts(tier):
         p.use_musical_beat()
         return p
     out.append(("six_eight_default_musical_beats", six_eight_musical))
+
+    def upbeat_under_musical_beats(ts, divs, pick, user=None):
+        def f():
+            bar = 4 * divs * ts[0] // ts[1]
+            notes = [("u", 0, pick, "G", None, 4, 1, 1)] + [("n%d" % k, pick + k * (bar // 2), bar // 2, "CDEF"[k % 4], None, 4, 1, 1) for k in range(4)]
+            p = G.build_part("P1", divs, ts=((0, ts[0], ts[1]),), notes=notes, rests=[("r0", pick + 2 * bar, bar, 1, 1)], measures=[(0, pick), (pick, pick + bar), (pick + bar, pick + 2 * bar), (pick + 2 * bar, pick + 3 * bar)])
+            p.use_musical_beat(user or {})
+            return p
+        return f
+    # an upbeat of one eighth / of four eighths in 6/8, of two eighths in 9/8, of a quarter in 4/4 counted in two - all under musical beats
+    out.append(("upbeat_of_an_eighth_in_six_eight_musical_beats", upbeat_under_musical_beats((6, 8), 2, 1)))
+    out.append(("upbeat_of_four_eighths_in_six_eight_musical_beats", upbeat_under_musical_beats((6, 8), 2, 4)))
+    out.append(("upbeat_of_two_eighths_in_nine_eight_musical_beats", upbeat_under_musical_beats((9, 8), 4, 4)))
+    out.append(("upbeat_of_a_quarter_in_four_four_counted_in_two", upbeat_under_musical_beats((4, 4), 4, 4, {"4/4": 2})))
     if tier == "thorough":
         out.append(("plain", lambda: G.build_part("P1", 1, notes=[("a", 0, 4, "C", None, 4, 1, 1), ("b", 4, 4, "D", None, 4, 1, 1)])))
     return out
@@ -339,8 +353,9 @@ def bounded(b):
                     if r is None:
                         continue
                     on, off = rest.start.t, rest.end.t
+                    mus_ = bool(getattr(part, "_use_musical_beat", False))
                     want = {"onset_quarter": O.quarter_pos(part, on), "duration_quarter": O.quarter_pos(part, off) - O.quarter_pos(part, on),
-                            "onset_beat": O.beat_pos(part, on), "duration_beat": O.beat_pos(part, off) - O.beat_pos(part, on), "pitch": 0}
+                            "onset_beat": O.beat_pos(part, on, mus_), "duration_beat": O.beat_pos(part, off, mus_) - O.beat_pos(part, on, mus_), "pitch": 0}
                     if rest.voice is not None:
                         want["voice"] = rest.voice
                     if "staff" in ra.dtype.names:
